@@ -43,6 +43,7 @@ type hout struct {
 	Err   string `json:"err"`
 	Cert  string `json:"cert"`
 	IAT   string `json:"iat"`
+	Seed  string `json:"seed"` // the drbg-seed the started server sends to a client (observed by a reference client in the helper)
 	Found bool   `json:"found"`
 }
 
@@ -416,7 +417,10 @@ func enumerate(c *mon.Case, r *mon.Run, work string, pre dirState, allTorn bool,
 type identity struct {
 	cert string
 	iat  map[string]bool // admissible advertised iat-mode values
+	seed map[string]bool // admissible seeds (as sent to clients); nil = not judged
 	args []string        // node-id=, private-key=, drbg-seed= of the persisted identity
+	// again: the arguments of the start that crashed (nil: not known / refused start)
+	again []string
 }
 
 // idArgs extracts the identity arguments from a state file.
@@ -461,8 +465,28 @@ func judgeStart(c *mon.Case, r *mon.Run, work string, cs crashState, want identi
 		c.Violation("identity-replaced/"+cls, fmt.Sprintf("after a crash (%s) the next start presents cert %s instead of the persisted %s", cs.desc, o.Cert, want.cert), wit)
 	case !want.iat[o.IAT]:
 		c.Violation("iat-mode-wrong/"+cls, fmt.Sprintf("after a crash (%s) the next start advertises iat-mode=%s, admissible %v", cs.desc, o.IAT, want.iat), wit)
+	case want.seed != nil && o.Seed != "" && !want.seed[o.Seed]:
+		c.Violation("identity-replaced/seed/"+cls, fmt.Sprintf("after a crash (%s) the next start sends its clients the seed %s, admissible %v", cs.desc, o.Seed, want.seed), wit)
 	default:
 		r.Count("crash_state_start_ok", 1)
+	}
+	// the start that crashed is tried again (what an operator or tor does), and
+	// then comes a plain start: what the repeated start presented is what was
+	// persisted, so the plain start must present the same
+	if want.again != nil && (cs.k%3 == 1 || cs.torn) {
+		cs.st.writeTo(dir)
+		o3, err3 := runHelper(append([]string{"obfs4-start", dir}, want.again...)...)
+		o4, err4 := runHelper("obfs4-start", dir)
+		r.Count("evaluations", 1)
+		r.Count("crash_states_judged_by_repeated_then_plain_start", 1)
+		switch {
+		case err3 != nil || err4 != nil:
+			c.Violation("crash/start-crashed/"+cls, fmt.Sprintf("%v / %v", err3, err4), wit)
+		case !o3.OK:
+			c.Violation("identity-lost/repeated-start-after-crash-fails/"+cls, fmt.Sprintf("after a crash (%s) the same start, tried again, fails: %s", cs.desc, o3.Err), wit)
+		case !o4.OK || o4.Cert != o3.Cert || o4.IAT != o3.IAT || (o3.Seed != "" && o4.Seed != "" && o4.Seed != o3.Seed):
+			c.Violation("identity-not-persisted/repeated-start-after-crash/"+cls, fmt.Sprintf("after a crash (%s) the same start, tried again, presented cert=%s iat-mode=%s seed=%s; the plain start behind it: ok=%v err=%s cert=%s iat-mode=%s seed=%s", cs.desc, o3.Cert, o3.IAT, o3.Seed, o4.OK, o4.Err, o4.Cert, o4.IAT, o4.Seed), wit)
+		}
 	}
 	// the same crash state must also survive the other kind of start: one with
 	// the identity given explicitly (which writes a document of another length),
@@ -537,6 +561,10 @@ func runHistory(c *mon.Case, r *mon.Run, name string, steps []step, allTorn, val
 		iatNew := res.out.IAT
 		if si == 0 {
 			id = identity{cert: res.out.Cert, iat: map[string]bool{iatNew: true}, args: idArgs(res.post["obfs4_state.json"])}
+			if res.out.Seed != "" {
+				id.seed = map[string]bool{res.out.Seed: true}
+				r.Count("seeds_observed_at_a_client", 1)
+			}
 			// from the moment the first complete state file exists, the identity counts as persisted
 			first := -1
 			for i, cs := range res.states {
@@ -573,10 +601,36 @@ func runHistory(c *mon.Case, r *mon.Run, name string, steps []step, allTorn, val
 			} else {
 				r.Count("control_restart_same_identity", 1)
 			}
+			// the seed: an explicit drbg-seed replaces the persisted one, otherwise it stays
+			explicitSeed := ""
+			for _, a := range st.args {
+				if strings.HasPrefix(a, "drbg-seed=") {
+					explicitSeed = strings.TrimPrefix(a, "drbg-seed=")
+				}
+			}
+			admSeed := map[string]bool{}
+			for k := range id.seed {
+				admSeed[k] = true
+			}
+			if id.seed != nil && res.out.Seed != "" {
+				switch {
+				case explicitSeed == "" && !id.seed[res.out.Seed]:
+					c.Violation("seed-changed-on-restart/"+name, fmt.Sprintf("step %d (no drbg-seed given) sends its clients the seed %s, persisted %v", si, res.out.Seed, id.seed), nil)
+				case explicitSeed != "" && res.out.Seed != explicitSeed:
+					c.Violation("seed-override-ignored/"+name, fmt.Sprintf("step %d with drbg-seed=%s sends its clients the seed %s", si, explicitSeed, res.out.Seed), nil)
+				}
+				admSeed[res.out.Seed] = true
+			}
+			if len(admSeed) == 0 {
+				admSeed = nil
+			}
 			for _, cs := range res.states {
-				judgeStart(c, r, work, cs, identity{cert: id.cert, iat: adm, args: id.args}, hist, si)
+				judgeStart(c, r, work, cs, identity{cert: id.cert, iat: adm, seed: admSeed, args: id.args, again: append([]string{}, st.args...)}, hist, si)
 			}
 			id.iat = map[string]bool{iatNew: true}
+			if id.seed != nil && res.out.Seed != "" {
+				id.seed = map[string]bool{res.out.Seed: true}
+			}
 		}
 		// bridge line file agrees with Args()
 		if bl := res.post["obfs4_bridgeline.txt"]; !strings.Contains(bl, "cert="+res.out.Cert+" iat-mode="+res.out.IAT+"\n") {
@@ -792,6 +846,16 @@ func TestCheck(t *testing.T) {
 			return []step{{args: argsOf(b, k%3)}, {}, {args: argsOf(b, k%3)}}
 		}},
 		{"generated-restarts", func(b o4.Bridge, k int) []step { return []step{{}, {}, {}, {args: []string{"iat-mode=0"}}} }},
+		// the same key given again with another seed: the seed is part of the identity
+		{"explicit-same-key-other-seed", func(b o4.Bridge, k int) []step {
+			other := argsOf(b, k%3)
+			for i, a := range other {
+				if strings.HasPrefix(a, "drbg-seed=") {
+					other[i] = "drbg-seed=" + strings.Repeat(fmt.Sprintf("%02x", 0x11*(1+k%15)), 24)
+				}
+			}
+			return []step{{args: argsOf(b, k%3)}, {args: other}, {}, {args: []string{"iat-mode=" + strconv.Itoa((k+1)%3)}}, {}}
+		}},
 	}
 	for si, sh := range shapes {
 		for k := 0; k < nID; k++ {
